@@ -17,7 +17,8 @@ prescribes: reproduce on the real code with a few lines → either the check was
 breaks the property. Genuine defects were repaired when the patch is small, keeps the behaviour and
 passes the unedited suite (one unguarded `fix:` commit each, {len(order)} in total), and recorded as a region
 of `known_findings.json` otherwise ({len(k['findings'])} regions). After the repairs the full baseline command of
-`/root/.vp/BASELINE.json` was run and compared id by id with `tools/baseline_compare.py`.
+`/root/.vp/BASELINE.json` was run and compared id by id with `tools/baseline_compare.py` (last run, at the final
+`/repo` HEAD `d71f073`: `stable_pass=3505 passed_now=3923 stable_not_passing=0`).
 
 ### 11.1 Repairs (`git -C /repo log --grep '^fix:'`)
 
